@@ -16,7 +16,8 @@ def tonl_d(ann):
           "var Default hid", "", "// HTM is a helper."] + m + ["func (h hid) HTM(n int) int { return n }", "",
           "// MkS is a helper that hands out an S."] + f + ["func MkS() S { return S{} }", "",
           ] + (["// PF of S is a helper method with a parenthesised receiver; the function PF is not a helper.", "// @testonly",
-                "func (s (S)) PF(n int) int { return n }", ""] if ann["meth"] else []) + (["// TTM is a helper method of the helper type; it exists only as a @testonly method (its receiver names TT in a non-test file).",
+                "func (s (S)) PF(n int) int { return n }", ""] if ann["meth"] else []) + \
+         ["// TMP is a helper; its receiver is written with parentheses."] + m + ["func (s (S)) TMP(n int) int { return n }", ""] + (["// TTM is a helper method of the helper type; it exists only as a @testonly method (its receiver names TT in a non-test file).",
                 "// @testonly", "func (t TT) TTM(n int) int { return n }", ""] if ann["meth"] else [])
     return "\n".join(ls) + "\n"
 
@@ -46,7 +47,7 @@ def build_tonl(sc, sid):
             key = (fidx, cidx)
             doc = ["// @testonly"] if ctx in ("tofunc", "tometh") else []
             params = ""
-            if u in ("callM", "callPM"):
+            if u in ("callM", "callPM", "callMparen"):
                 params = "s%d %sS" % (n, q)
             recv = "(h%d *H) " % n if ctx in ("pmeth", "tometh", "pmethTF") else ""
             fname = "TF" if ctx == "pmethTF" else "fn%d" % n   # a method named like the @testonly function (each on its own receiver type)
@@ -83,6 +84,7 @@ def build_tonl(sc, sid):
                 "callPF": "_ = %sPF(%d)" % (q, n),
                 "callPM": "_ = s%d.PM(%d)" % (n, n),
                 "callLower": "_ = tfLower(%d)" % n,
+                "callMparen": "_ = s%d.TMP(%d)" % (n, n),
                 "callMpkgvar": "_ = d.TM(%d)" % n,
                 "shadow": "_ = TF(%d)" % n,
                 "litTT": "_ = %s{X: %d}" % (TT, n),
@@ -180,7 +182,9 @@ def pkgo_d(lines):
           "// Default is the shared instance.", "var Default hid", "", "// HM is restricted."] + ann + ["func (h hid) HM(n int) int { return n }", "",
           "// state is restricted and unexported; State names it for other packages."] + ann + ["type state struct{ X int }", "",
           "// State is an exported alias.", "type State = state", "",
-          "// QF of S is restricted (parenthesised receiver); the function QF is not."] + ann + ["func (s (*S)) QF(n int) int { return n }", ""]
+          "// QF of S is restricted (parenthesised receiver); the function QF is not."] + ann + ["func (s (*S)) QF(n int) int { return n }", ""] + \
+         ["// GS is generic: the receiver of its method cannot be named by an identifier.", "type GS[T any] struct{ V T }", "",
+          "// QF of GS is restricted; the function QF is not."] + ann + ["func (g *GS[T]) QF(n int) int { return n }", ""]
     return "\n".join(ls) + "\n"
 
 
